@@ -69,7 +69,11 @@ def opUnpackRule (req : Json) : Except String Json := do
   | _ => pure (errJson .format)
 
 def opPackRule (req : Json) : Except String Json := do
-  let r ← ruleDataOf (← field req "data")
+  -- a dictionary outside the model's domain (e.g. a destination type that is neither materials nor products)
+  -- is what `pack_rule` rejects as malformed
+  let r ← match ruleDataOf (← field req "data") with
+    | .ok r => pure r
+    | .error _ => return errJson .format
   match packRule r with
   | .ok out => pure (okJson (.arr (out.map ofStr).toArray))
   | .error e => pure (errJson e)
@@ -656,6 +660,11 @@ def opCliMain (req : Json) : Except String Json := do
     pure (okJson (.num (exitStatus .matchProducts (frontOutcome ok work))))
   else throw "bad tool"
 
+/-- `in-toto-sign --verify` with several keys: the exit status given, per key in the order passed, what its check does. -/
+def opSignVerifyMany (req : Json) : Except String Json := do
+  let results ← (← arr (← field req "results")).mapM outcomeOf
+  pure (okJson (.num (exitStatus .signVerify (signVerifyOutcome results))))
+
 def dispatch (op : String) (req : Json) : Except String Json :=
   match op with
   | "ping" => pure (okJson (.str "pong"))
@@ -681,6 +690,7 @@ def dispatch (op : String) (req : Json) : Except String Json :=
   | "in_toto_run" => opInTotoRun req
   | "sign_ops" => opSignOps req
   | "dir_ops" => opDirOps req
+  | "sign_verify_many" => opSignVerifyMany req
   | _ => throw s!"unknown op {op}"
 
 def handle (line : String) : String :=
